@@ -277,6 +277,13 @@ func c17InGen(r *rand.Rand, g int64, cfg c17Cfg) (c17InCase, []c17Step) {
 	c.Retransmit = r.IntN(2) == 0
 	if c.Fault == "t4-gap-restart" {
 		steps = append(steps, valid(m[0], "M1"), valid(m[1], "M2"))
+		// a block for another device right behind M2: it changes nothing, but the receiver's EOT for it is an
+		// observable instant shortly after M2 was accepted (without it "M2 arrived within T4 of M1" cannot be measured)
+		x := newMsg(1, 3, 3)[0]
+		for x.Device == cfg.Dev {
+			x.Device = (cfg.Dev + 1) & 0x7FFF
+		}
+		steps = append(steps, valid(x, "X(other device, timing probe)"))
 		for n, b := range m {
 			s := valid(b, fmt.Sprintf("M%d(restarted)", n+1))
 			if n == 0 {
